@@ -386,10 +386,18 @@ pub fn check_exchange(id: &str, ex: &Exchange, url: &UrlSpec, extra_pairs: &[(St
     if hosts.len() != 1 {
         return fail("host-count", format!("{} Host fields", hosts.len()));
     }
+    let h = String::from_utf8_lossy(hosts[0]).to_ascii_lowercase();
     if route != Route::PlainViaProxy {
-        let h = String::from_utf8_lossy(hosts[0]).to_ascii_lowercase();
         if h != url.host_header() {
             return fail("host-value", format!("Host: {h}, expected {}", url.host_header()));
+        }
+    } else if let Some(p) = proxy {
+        // (relayed plain http: the client documents that Host names the proxy; the origin's own host would be the textbook value.
+        // Anything else - the host of an earlier hop, a caller's left-over - belongs to neither)
+        let ps = p.as_url_spec();
+        let proxy_auth = [ps.host_header(), format!("{}:{}", ps.host_text(), ps.effective_port())];
+        if h != url.host_header() && !proxy_auth.contains(&h) {
+            return fail("host-value", format!("Host: {h}, expected {} (or the proxy's {})", url.host_header(), proxy_auth[1]));
         }
     }
     Ok(req)
